@@ -69,39 +69,56 @@ Section SProofs.
 
   Lemma run_input_d_inv now s dflt i : InvT s -> InvT (outcome_state (run_input_d f now s dflt i) s).
   Proof.
-    intros HI. destruct i as [ps ts ref md amd force | id force at_eff rmeta | [a|id] md | [a|id] k];
-      try exact (run_input_inv f now s _ HI).
-    - cbn [run_input_d]. destruct ps as [|p ps']; [exact HI|].
+    intros HI.
+    assert (Hc : forall ps ts ref md amd force, InvT (outcome_state (create_tx_d f now s dflt ps ts ref md amd force) s)).
+    { intros ps ts ref md amd force. unfold create_tx_d. destruct ps as [|p ps']; [exact HI|].
       destruct (negb (feasible force (s_vols s) (p :: ps'))); [exact HI|].
       destruct (commit_transaction f now s (p :: ps') md ts ref) as [s1 [t|]] eqn:E; cbn [outcome_state].
       + unfold upsert_tx_accounts_d. apply with_accounts_inv. eapply commit_some_inv; eassumption.
-      + eapply commit_none_inv; eassumption.
+      + eapply commit_none_inv; eassumption. }
+    destruct i as [ps ts ref md amd force | id force at_eff rmeta | [a|id] md | [a|id] k | ps ts ref md amd force smd samd];
+      try exact (run_input_inv f now s _ HI).
+    - apply Hc.
     - cbn [run_input_d outcome_state]. apply with_accounts_inv. exact HI.
+    - cbn [run_input_d]. destruct ps as [|p ps']; [exact HI|].
+      destruct (negb (feasible force (s_vols s) (p :: ps'))); [exact HI|].
+      destruct (script_tx_meta smd md); [apply Hc | exact HI].
   Qed.
 
   Lemma run_input_d_logs now s dflt i :
     let s' := outcome_state (run_input_d f now s dflt i) s in s_logs s' = s_logs s /\ s_next_log s' = s_next_log s.
   Proof.
-    destruct i as [ps ts ref md amd force | id force at_eff rmeta | [a|id] md | [a|id] k];
-      try exact (run_input_logs f now s _).
-    - cbn [run_input_d]. destruct ps as [|p ps']; [split; reflexivity|].
+    assert (Hc : forall ps ts ref md amd force,
+              let s' := outcome_state (create_tx_d f now s dflt ps ts ref md amd force) s in s_logs s' = s_logs s /\ s_next_log s' = s_next_log s).
+    { intros ps ts ref md amd force. unfold create_tx_d. destruct ps as [|p ps']; [split; reflexivity|].
       destruct (negb (feasible force (s_vols s) (p :: ps'))); [split; reflexivity|].
       destruct (commit_transaction f now s (p :: ps') md ts ref) as [s1 [t|]] eqn:E; cbn [outcome_state].
       + destruct (upsert_tx_accounts_d_frame now s1 dflt t amd) as (_ & _ & _ & _ & E1 & _ & E2 & _). rewrite E1, E2. eapply commit_logs; eassumption.
-      + eapply commit_logs; eassumption.
+      + eapply commit_logs; eassumption. }
+    destruct i as [ps ts ref md amd force | id force at_eff rmeta | [a|id] md | [a|id] k | ps ts ref md amd force smd samd];
+      try exact (run_input_logs f now s _).
+    - apply Hc.
     - cbn. split; reflexivity.
+    - cbn [run_input_d]. destruct ps as [|p ps']; [split; reflexivity|].
+      destruct (negb (feasible force (s_vols s) (p :: ps'))); [split; reflexivity|].
+      destruct (script_tx_meta smd md); [apply Hc | split; reflexivity].
   Qed.
 
   Lemma run_input_d_next_mono now s dflt i : s_next_tx s <= s_next_tx (outcome_state (run_input_d f now s dflt i) s).
   Proof.
-    destruct i as [ps ts ref md amd force | id force at_eff rmeta | [a|id] md | [a|id] k];
-      try exact (run_input_next_mono f now s _).
-    - cbn [run_input_d]. destruct ps as [|p ps']; [apply Z.le_refl|].
+    assert (Hc : forall ps ts ref md amd force, s_next_tx s <= s_next_tx (outcome_state (create_tx_d f now s dflt ps ts ref md amd force) s)).
+    { intros ps ts ref md amd force. unfold create_tx_d. destruct ps as [|p ps']; [apply Z.le_refl|].
       destruct (negb (feasible force (s_vols s) (p :: ps'))); [apply Z.le_refl|].
       destruct (commit_transaction f now s (p :: ps') md ts ref) as [s1 [t|]] eqn:E; cbn [outcome_state].
       + destruct (upsert_tx_accounts_d_frame now s1 dflt t amd) as (_ & _ & _ & _ & _ & E1 & _). rewrite E1. eapply commit_next_mono; eassumption.
-      + eapply commit_next_mono; eassumption.
+      + eapply commit_next_mono; eassumption. }
+    destruct i as [ps ts ref md amd force | id force at_eff rmeta | [a|id] md | [a|id] k | ps ts ref md amd force smd samd];
+      try exact (run_input_next_mono f now s _).
+    - apply Hc.
     - cbn. apply Z.le_refl.
+    - cbn [run_input_d]. destruct ps as [|p ps']; [apply Z.le_refl|].
+      destruct (negb (feasible force (s_vols s) (p :: ps'))); [apply Z.le_refl|].
+      destruct (script_tx_meta smd md); [apply Hc | apply Z.le_refl].
   Qed.
   (* ---------------------------------------------------------------- invariants of the base state along sstep *)
   Lemma bump_log_inv s : Inv s -> Inv (bump_log s).
@@ -177,11 +194,14 @@ Section SProofs.
     | IRevert _ _ _ _ => exists orig r, p = PRevert orig r
     | ISetMeta t md => p = PSetMeta t md
     | IDelMeta t k => p = PDelMeta t k
+    | IScript _ _ _ _ _ _ _ _ => exists t amd, p = PNewTx t amd
     end.
   Proof.
-    destruct i as [ps ts ref md amd force | id force at_eff rmeta | [a|id] md | [a|id] k]; simpl.
-    - destruct ps as [|q ps']; [discriminate|]. destruct (feasible force (s_vols s) (q :: ps')); simpl; [|discriminate].
-      destruct (commit_transaction f now s (q :: ps') md ts ref) as [s0 [t|]]; [|discriminate]. intros E; inversion E. eauto.
+    script_split i.
+    { simpl. unfold create_tx. destruct ps as [|q ps']; [discriminate|]. destruct (feasible force (s_vols s) (q :: ps')); simpl; [|discriminate].
+      destruct (commit_transaction f now s (q :: ps') md ts ref) as [s0 [t|]]; [|discriminate]. intros E; inversion E. eauto. }
+    destruct i as [ps ts ref md amd force | id force at_eff rmeta | [a|id] md | [a|id] k | ps ts ref md amd force smd samd];
+      [apply Hc | | | | | | script_bullet Hc]; simpl.
     - destruct (find_tx (s_txs s) id) as [t|]; [|discriminate]. destruct (t_rev t); [discriminate|].
       match goal with |- context [match ?chk with RCOk => _ | RCInsufficient => _ | RCPanic => _ end] => destruct chk end; try discriminate.
       match goal with |- context [commit_transaction ?a ?b ?c0 ?d ?e ?g ?h] => destruct (commit_transaction a b c0 d e g h) as [s2 [r|]] end; [|discriminate].
@@ -237,13 +257,21 @@ Section SProofs.
     exists c1, simp_payload re_valid re_match f nowi c now v p = inl c1 /\ Sim f false false s1 c1.
   Proof.
     intros HI [S Es _ _] Hr.
-    destruct i as [ps ts ref md amd force | id force at_eff rmeta | [a|id] md | [a|id] k].
-    - cbn [run_input_d]. destruct ps as [|q ps']; [discriminate|].
+    assert (Hc : forall ps ts ref md amd force,
+              create_tx_d f now (ss_base ss) (defaults sc) ps ts ref md amd force = Done s1 p ->
+              exists c1, simp_payload re_valid re_match f nowi c now v p = inl c1 /\ Sim f false false s1 c1).
+    { intros ps ts ref md amd force. unfold create_tx_d. destruct ps as [|q ps']; [discriminate|].
       destruct (negb (feasible force (s_vols (ss_base ss)) (q :: ps'))); [discriminate|].
       destruct (commit_transaction f now (ss_base ss) (q :: ps') md ts ref) as [s0 [t|]] eqn:E; [|discriminate].
       intros X; inversion X; subst; clear X. cbn [simp_payload]. rewrite (resolve_ext ss c v Es), Hr.
       destruct (imp_commit_sim f false false now _ _ _ _ _ _ _ _ HI S E) as (c1 & t' & Ec & S1 & _). rewrite Ec.
-      eexists. split; [reflexivity|]. apply upsert_tx_accounts_d_sim. exact S1.
+      eexists. split; [reflexivity|]. apply upsert_tx_accounts_d_sim. exact S1. }
+    destruct i as [ps ts ref md amd force | id force at_eff rmeta | [a|id] md | [a|id] k | ps ts ref md amd force smd samd].
+    7: { (* script create: the payload is the one of the plain create of the merged metadata *)
+      cbn [run_input_d]. destruct ps as [|q ps']; [discriminate|].
+      destruct (negb (feasible force (s_vols (ss_base ss)) (q :: ps'))); [discriminate|].
+      destruct (script_tx_meta smd md); [apply Hc | discriminate]. }
+    - apply Hc.
     - cbn [run_input_d]. intros R. destruct (done_payload_shape _ _ _ _ _ R) as (orig & r & ->).
       destruct (run_input_sim f false false now nowi _ _ _ _ _ HI S (fun D => match Bool.diff_false_true D with end) R) as (c1 & Ep & S1).
       exists c1. split; [|exact S1]. cbn [simp_payload]. rewrite Ep. reflexivity.
